@@ -310,6 +310,24 @@ func c07Roots() []c07Root {
 		out = append(out, c07Root{m + "/single-valued-c3", degenerateVariant(rootRequest(m, true, false), false)},
 			c07Root{m + "/single-valued-c3-and-zero-c1", degenerateVariant(rootRequest(m, false, false), true)})
 	}
+	// criteria that the request itself names like generated ones: with two criteria carrying the generated prefix, the
+	// suffixes 2 and 3 are taken, so a bias that adds a criterion has to step over two used names
+	for mi, m := range allMethods {
+		bases := []string{"__concealedCriterion__"}
+		if mi%3 == 0 {
+			bases = append(bases, "__anchoring_criterion_ideal")
+		}
+		for _, b := range bases {
+			vals := [][]float64{rootVals["a"], rootVals["b"], rootVals["c"]}
+			out = append(out, c07Root{m + "/declared-ids-like-generated:" + b, genericRequest(m, []string{"c1", b + "2", b + "3"}, 1, []string{"a", "b", "c"}, vals, []string{"c", "a"}, []float64{1, 2, 3})})
+		}
+	}
+	// more criteria than known alternatives (per-criterion and per-alternative buffers have different lengths)
+	for _, m := range allMethods {
+		cids := []string{"k1", "k2", "k3", "k4", "k5", "k6", "k7"}
+		out = append(out, c07Root{m + "/7-criteria-2-alternatives", genericRequest(m, cids, 1, []string{"a", "c"},
+			[][]float64{{1, 4, 2, 3, 5, 1, 2}, {3, 1, 2.5, 2, 4, 4, 1}}, []string{"c", "a"}, []float64{1, 2, 3, 4, 5, 6, 7})})
+	}
 	// generated aspiration-level series (their bias listeners are wired separately in main.go)
 	out = append(out,
 		c07Root{"aspectEliminationHeuristic/idealAdditive", withMP(rootRequest("aspectEliminationHeuristic", true, false), M{"function": "idealAdditiveCoefficient", "params": M{"coefficient": 0.25, "minValue": 0.0, "maxValue": 1.0}})},
